@@ -111,6 +111,9 @@ fn closure_scope() -> usize {
         ("map_values([2, 1]) -> |p| { 10 / p }", "p"),
         ("map_values([2, 1]) -> |p| { return 7 }", "p"),
         ("for_each([2, 1]) -> |p, q| { return 7 }", "pq"),
+        ("for_each({\"a\": 1}) -> |p, p| { p }", "p"),
+        ("for_each([5]) -> |p, p| { p }", "p"),
+        ("filter({\"a\": 1}) -> |p, p| { true }", "p"),
     ] {
         let mut src = String::new();
         for c in pnames.chars() { src.push_str(&format!("{c} = \"outer\"\n")); }
